@@ -1,35 +1,81 @@
 ----------------------------- MODULE Gen_Reuse -----------------------------
-(* Behaviour export for Reuse: every history of at most MaxRuns runs on one  *)
-(* interpreter.  A history is extended run by run; a run is (reset variant   *)
-(* applied before it, kind, configuration).  Every history is exported once, *)
-(* with the status/error class the specification predicts for each run and   *)
-(* the complete predicted output of its last run.  Unless ResetsAnywhere, a  *)
+(* Behaviour export for Reuse: histories of runs on one interpreter.  A      *)
+(* history is extended run by run; a run is (reset variant applied before    *)
+(* it, kind, configuration, tag = its position in the history, which makes   *)
+(* its standard input its own).  Every history is exported once, with the    *)
+(* status/error class the specification predicts for each run and the        *)
+(* complete predicted output of its last run.  Unless ResetsAnywhere, a      *)
 (* history that contains a reset is exported but not extended further, so    *)
-(* the resets sit before the last run (the probe).  Runs at position MaxRuns *)
-(* are drawn from LastKinds x LastCfgs, earlier ones from RunKinds x RunCfgs.*)
+(* the resets sit before the last run (the probe).  Runs at the last         *)
+(* position are drawn from lk x lc, earlier ones from rk x rc.               *)
+(*                                                                           *)
+(* Families (variable fam, chosen in Init; one TLC run exports all of Fams): *)
+(*  reuse  the 16 original kinds x c0..c2, probes plain / p_io / p_func      *)
+(*         (constants MaxRuns, RunKinds, RunCfgs, LastKinds, LastCfgs)       *)
+(*  stdin  every path a run can read its standard input through (main loop,  *)
+(*         plain getline, getline < "-", getline var < "-"), each run with   *)
+(*         its own input, followed by every path again                       *)
+(*  exit   runs that execute exit N outside END and then fail in END (error  *)
+(*         or cancellation), followed by runs that end normally, by a bare   *)
+(*         exit or by exit 3: the status and error Execute returns           *)
+(*  ctx    Execute / ExecuteContext(Background) / ExecuteContext with a      *)
+(*         context that is cancelled or expires after the call returned (or  *)
+(*         is cancelled by the run itself), followed by runs that are long   *)
+(*         enough to poll a context, fail with a run-time error, or start a  *)
+(*         command (system(), cmd | getline)                                 *)
+(* Deep widens the three new families (thorough tier).                       *)
 EXTENDS Reuse, Json
 
-CONSTANT MaxRuns, RunKinds, RunCfgs, LastKinds, LastCfgs, ResetsAnywhere
+CONSTANT Fams, MaxRuns, RunKinds, RunCfgs, LastKinds, LastCfgs, ResetsAnywhere, Deep
 
-VARIABLES st, h, open
-vars == <<st, h, open>>
+StdinKinds == {"plain", "gl_plain", "gl_dash", "gl_dashvar"}
+FamDef(f) ==
+  CASE f = "reuse" ->
+         [max |-> MaxRuns, rk |-> RunKinds, rc |-> RunCfgs, lk |-> LastKinds, lc |-> LastCfgs, vs |-> Variants]
+    [] f = "stdin" ->
+         [max |-> 3,
+          rk |-> StdinKinds \cup (IF Deep THEN {"exit3", "errfunc", "cancel", "csvhdr"} ELSE {}),
+          rc |-> {"c0", "c1", "c2"},
+          lk |-> StdinKinds,
+          lc |-> IF Deep THEN {"c0", "c1", "c2", "c3"} ELSE {"c0", "c1"},
+          vs |-> IF Deep THEN Variants ELSE {"none", "both"}]
+    [] f = "exit" ->
+         [max |-> 3,
+          rk |-> {"exit_enderr", "exitbegin", "exit_endcancel", "exit3", "plain"} \cup (IF Deep THEN {"errfunc", "p_func"} ELSE {}),
+          rc |-> IF Deep THEN {"c0", "c1", "c2", "c3"} ELSE {"c0", "c1"},
+          lk |-> {"plain", "p_func", "exit3"} \cup (IF Deep THEN {"exit_enderr", "gl_dash"} ELSE {}),
+          lc |-> IF Deep THEN {"c0", "c1", "c4"} ELSE {"c0"},
+          vs |-> IF Deep THEN Variants ELSE {"none", "both"}]
+    [] f = "ctx" ->
+         [max |-> 3,
+          rk |-> {"plain", "cancel"} \cup (IF Deep THEN {"sys", "pipe", "p_func", "exit_endcancel", "errfunc"} ELSE {}),
+          rc |-> {"c0", "c1", "c3", "c4"},
+          lk |-> {"p_func", "errfunc", "sys", "pipe"},
+          lc |-> IF Deep THEN {"c0", "c1", "c3", "c4"} ELSE {"c0", "c4"},
+          vs |-> IF Deep THEN Variants ELSE {"none", "both"}]
 
-Init == st = StInit /\ h = <<>> /\ open = TRUE
+VARIABLES st, h, open, fam
+vars == <<st, h, open, fam>>
 
-Summary(vr, kind, cfg, res) == [vr |-> vr, kind |-> kind, cfg |-> cfg.name, status |-> res.status, err |-> res.err]
+Init == st = StInit /\ h = <<>> /\ open = TRUE /\ fam \in Fams
 
+Summary(vr, kind, cfg, res) ==
+  [vr |-> vr, kind |-> kind, cfg |-> cfg.name, tag |-> cfg.tag, status |-> res.status, err |-> res.err]
+
+\* (\E over a singleton binds the run's result once; the JSON text is built before PrintT takes its lock)
 Next ==
-  /\ open /\ Len(h) < MaxRuns
-  /\ \E vr \in Variants :
-     \E kind \in (IF Len(h) + 1 = MaxRuns THEN LastKinds ELSE RunKinds) :
-     \E cn \in (IF Len(h) + 1 = MaxRuns THEN LastCfgs ELSE RunCfgs) :
-       LET cfg == CfgNamed(cn)
-           ex  == ExecSpec(ApplyVariant(st, vr), kind, cfg)
-       IN /\ (h = <<>> => vr = "none")            \* resets on a new interpreter are covered by vr = "none"
+  /\ open /\ Len(h) < FamDef(fam).max
+  /\ \E fd \in {FamDef(fam)} :
+     \E vr \in (IF h = <<>> THEN {"none"} ELSE fd.vs) :    \* resets on a new interpreter are covered by "none"
+     \E kind \in (IF Len(h) + 1 = fd.max THEN fd.lk ELSE fd.rk) :
+     \E cn \in (IF Len(h) + 1 = fd.max THEN fd.lc ELSE fd.rc) :
+     \E cfg \in {WithTag(CfgNamed(cn), Len(h) + 1)} :
+     \E ex \in {ExecSpec(ApplyVariant(st, vr), kind, cfg)} :
           /\ st' = ex.st
           /\ h' = Append(h, Summary(vr, kind, cfg, ex.res))
           /\ open' = (ResetsAnywhere \/ vr = "none")
-          /\ PrintT(ToJson([fam |-> "reuse", runs |-> h', out |-> ex.res.out]))
+          /\ fam' = fam
+          /\ \E js \in {ToJson([fam |-> fam, runs |-> h', out |-> ex.res.out])} : Len(js) > 0 /\ PrintT(js)
 
 Spec == Init /\ [][Next]_vars
 =============================================================================
